@@ -103,6 +103,13 @@ impl BlockEncoder {
                 self.block_multiplex_index = 0;
             }
 
+            // Blocks are interleaved: the other blocks of the window may still hold symbols
+            let other_blocks_empty = self
+                .blocks
+                .iter()
+                .enumerate()
+                .all(|(index, block)| index == self.block_multiplex_index || block.is_empty());
+
             let block = &mut self.blocks[self.block_multiplex_index];
             let symbol = block.read();
             if symbol.is_none() {
@@ -121,7 +128,8 @@ impl BlockEncoder {
 
             let is_last_packet = (self.source_size_transferred
                 >= self.file.object.transfer_length as usize)
-                && *is_last_symbol;
+                && *is_last_symbol
+                && other_blocks_empty;
 
             return Some(pkt::Pkt {
                 payload: symbol.symbols.to_vec(),
